@@ -13,6 +13,8 @@ package presign
 
 // ---- start functions (C20)
 //@ func StartPresign$1
+// (C09) the session tag is derived under this protocol's OWN identifier (pairwise distinct across all start functions)
+//@   assert_at[C09] NewSession "helper, err := round.NewSession(info, sessionID, pl, c, types.SigningMessage(message))": arg0.ProtocolID == ite(len(message) == 0, "cmp/presign-offline", "cmp/presign-full") && arg0.FinalRoundNumber == ite(len(message) == 0, 7, 8)
 //@   nopanic[C20]
 //@   requires c != nil ==> cfgwf(c)
 //@   ensures[C20] result1 != nil ==> result0 == nil
@@ -20,6 +22,8 @@ package presign
 //@   loop 1: invariant PublicKey != nil && fresh(ECDSA) && fresh(ElGamal) && fresh(Paillier) && fresh(Pedersen)
 
 //@ func StartPresignOnline$1
+// (C09) the session tag is derived under this protocol's OWN identifier (pairwise distinct across all start functions)
+//@   assert_at[C09] NewSession "helper, err := round.NewSession(": arg0.ProtocolID == "cmp/presign-online"
 //@   nopanic[C20]
 //@   requires c != nil ==> cfgwf(c)
 //@   ensures[C20] result1 != nil ==> result0 == nil
